@@ -166,7 +166,12 @@ def check_multiply_schema(world, f, order=None, self_names=(), double_q=None, ad
 
     def run(it):
         return it.call_func(f, [pt, n], {})
-    paths = enumerate_paths(world, run, summaries=summ)
+    ladder_notes = []
+    paths = enumerate_paths(world, run, summaries=summ, loop_hooks={"*": lambda it, st, seq, fr: _ladder_for(it, st, seq, fr, n, ladder_notes)},
+                            while_hooks={f.qualname: lambda it, st, fr: _ladder_while(it, st, fr, n, ladder_notes)})
+    for key, ok, det in ladder_notes:
+        if (key, ok, det) not in results:
+            results.append((key, ok, det))
     for p in paths:
         pl = " ".join(p.branch_lines()) or "(straight)"
         facts = [(a, t) for a, t, _ in p.facts]
@@ -242,3 +247,174 @@ def _disj_outside(facts, n, order):
     lt0 = Term("lt", (n, 0), "bool")
     ltN = Term("lt", (n, order), "bool")
     return facts.get(lt0) is True or facts.get(ltN) is False
+
+
+# ---------------------------------------------------------------------------
+# iterative ladders (loop-invariant rules)
+# ---------------------------------------------------------------------------
+def _coef(v):
+    g = classify_point(v)
+    if g is None:
+        return None
+    others = {b: c for b, c in g.comb.items() if b != "P"}
+    if others:
+        return None
+    return g.comb.get("P", Poly.const(0))
+
+
+def _bit_facts(it, x, b):
+    """assume x ∈ {0,1} has the value b, in the atom forms a bit test may take"""
+    from .term import t_eq
+    for val in (0, 1):
+        a = t_eq(x, val)
+        if isinstance(a, Term):
+            atom, pol = a, True
+            while atom.op == "not":
+                atom, pol = atom.args[0], not pol
+            it.facts[atom] = ((b == val) == pol)
+
+
+def _ladder_for(it, st, seq, fr, n, notes):
+    """left-to-right binary ladder:  for i in range(n.bit_length() - s, -1, -1): R = 2R [+ P if bit i of n]
+    invariant at the loop head: R = (n >> (i+1))·P.  Initially i+1 = bit_length(n) - s + 1."""
+    import ast as _ast
+    from .interp import _assigned_names, _Break, _Continue
+    where = it.where(st)
+    src = getattr(seq, "src", None)
+    if not (isinstance(src, tuple) and len(src) == 4 and src[0] == "range" and src[2] == -1 and src[3] == -1
+            and isinstance(st.target, _ast.Name)):
+        return NotImplemented
+    start = src[1]
+    bl = Term("bit_length", (n,), "int")
+    s_off = None
+    for cand in (1, 2):
+        if start is t_arith_sub(bl, cand):
+            s_off = cand
+    if s_off is None:
+        notes.append((f"ladder {where}", False, f"loop starts at bit {show(start)}; expected bit_length(n) − 1 or − 2"))
+        return NotImplemented
+    carried = [nm for nm in sorted(_assigned_names(st.body)) if nm in fr.env and nm != st.target.id]
+    pts = [nm for nm in carried if _coef(fr.env[nm]) is not None]
+    if len(carried) != 1 or len(pts) != 1:
+        notes.append((f"ladder {where}", False, f"loop-carried variables {carried}: expected exactly one accumulator point"))
+        return NotImplemented
+    R = pts[0]
+    k0 = _coef(fr.env[R])
+    flo, fhi, fholes, _ = interval_of_facts(list(it.facts.items()), n)
+    while flo in fholes:
+        flo += 1
+    # n >> (bit_length(n) - 1) = 1 for n >= 1;  n >> bit_length(n) = 0 for n >= 0
+    want0, need = (Poly.const(1), 1) if s_off == 2 else (Poly.const(0), 0)
+    init_ok = (k0 - want0).is_zero() and flo >= need
+    notes.append((f"ladder {where} invariant R = (n >> (i+1))·P holds initially", init_ok,
+                  f"accumulator starts at [{k0!r}]·P, first bit index bit_length(n) − {s_off}; lower bound of n on entry: {flo}"
+                  + ("" if init_ok else " — for n below that bound the leading-bit assumption fails (negative or zero scalars)")))
+    i = var("i", "int")
+    pres = True
+    saved = dict(fr.env)
+    sfacts = dict(it.facts)
+    for b in (0, 1):
+        fr.env.clear()
+        fr.env.update(saved)
+        it.facts.clear()
+        it.facts.update(sfacts)
+        fr.env[st.target.id] = i
+        fr.env[R] = GroupSym({"P": Poly.var("K")})
+        bit = t_arith_and(Term("rshift", (n, i), "int"), 1)
+        _bit_facts(it, bit, b)
+        _bit_facts(it, Term("mod", (Term("rshift", (n, i), "int"), 2), "int"), b)
+        try:
+            it.exec_block(st.body, fr)
+        except (_Break, _Continue):
+            pres = False
+        k1 = _coef(fr.env.get(R))
+        if k1 is None or not (k1 - (Poly.const(2) * Poly.var("K") + Poly.const(b))).is_zero():
+            pres = False
+    fr.env.clear()
+    fr.env.update(saved)
+    it.facts.clear()
+    it.facts.update(sfacts)
+    notes.append((f"ladder {where} invariant preserved: R' = (2K + bit_i(n))·P = (n >> i)·P", pres, ""))
+    fr.env[R] = GroupSym({"P": Poly.var("n")}) if (init_ok and pres) else GroupSym({"P": Poly.var("unverified_ladder")})
+    fr.env[st.target.id] = Term("after_loop", (where, st.target.id), "int")
+    return None
+
+
+def _ladder_while(it, st, fr, n, notes):
+    """right-to-left ladder:  while m: if m & 1: R += A ; A = 2A ; m >>= 1   with invariant R + m·A = n·P"""
+    import ast as _ast
+    from .interp import _assigned_names, _Break, _Continue
+    where = it.where(st)
+    names = sorted(nm for nm in _assigned_names(st.body) if nm in fr.env)
+    pts = [nm for nm in names if _coef(fr.env[nm]) is not None]
+    ints = [nm for nm in names if nm not in pts]
+    if len(pts) != 2 or len(ints) != 1:
+        return NotImplemented
+    m_name = ints[0]
+    m0 = fr.env[m_name]
+    cond = _ast.unparse(st.test).replace(" ", "")
+    if cond not in (m_name, f"{m_name}>0", f"{m_name}!=0", f"0<{m_name}"):
+        notes.append((f"ladder {where}", False, f"loop condition `{cond}` not recognised"))
+        return NotImplemented
+    flo, fhi, fholes, _ = interval_of_facts(list(it.facts.items()), n)
+    while flo in fholes:
+        flo += 1
+    ks = {nm: _coef(fr.env[nm]) for nm in pts}
+    # which of the two points is the accumulator?  try both role assignments
+    saved = dict(fr.env)
+    sfacts = dict(it.facts)
+    verdict = None
+    for R, A in ((pts[0], pts[1]), (pts[1], pts[0])):
+        init = (ks[R] + scalar_poly(m0) * ks[A] - Poly.var("n")).is_zero()
+        pres = True
+        for b in (0, 1):
+            fr.env.clear()
+            fr.env.update(saved)
+            it.facts.clear()
+            it.facts.update(sfacts)
+            cur = var("cur", "int")
+            fr.env[m_name] = cur
+            fr.env[R] = GroupSym({"P": Poly.var("KR")})
+            fr.env[A] = GroupSym({"P": Poly.var("KA")})
+            _bit_facts(it, t_arith_and(cur, 1), b)
+            _bit_facts(it, Term("mod", (cur, 2), "int"), b)
+            try:
+                it.exec_block(st.body, fr)
+            except (_Break, _Continue):
+                pres = False
+                continue
+            kr, ka, m1 = _coef(fr.env.get(R)), _coef(fr.env.get(A)), fr.env.get(m_name)
+            halves = isinstance(m1, Term) and ((m1.op == "rshift" and m1.args == (cur, 1)) or (m1.op == "floordiv" and m1.args == (cur, 2)))
+            if kr is None or ka is None or not halves:
+                pres = False
+                continue
+            h = Poly.var("hh")
+            before = Poly.var("KR") + (Poly.const(2) * h + Poly.const(b)) * Poly.var("KA")
+            after = kr + h * ka
+            if not (before - after).is_zero():
+                pres = False
+        if init and pres:
+            verdict = (R, A)
+            break
+    fr.env.clear()
+    fr.env.update(saved)
+    it.facts.clear()
+    it.facts.update(sfacts)
+    term_ok = flo >= 0
+    notes.append((f"ladder {where} invariant R + m·A = n·P holds initially and is preserved for both bit values", verdict is not None, ""))
+    notes.append((f"ladder {where} terminates: m halves each round and n ≥ 0 on entry", term_ok,
+                  f"lower bound of n on entry: {flo}" + ("" if term_ok else " (a negative scalar never reaches 0 under >> 1)")))
+    R = verdict[0] if verdict else pts[0]
+    fr.env[R] = GroupSym({"P": Poly.var("n")}) if (verdict and term_ok) else GroupSym({"P": Poly.var("unverified_ladder")})
+    fr.env[m_name] = 0
+    return None
+
+
+def t_arith_sub(a, k):
+    from .term import t_arith
+    return t_arith("sub", a, k)
+
+
+def t_arith_and(a, k):
+    from .term import t_arith
+    return t_arith("and", a, k)
